@@ -596,6 +596,10 @@ func buildHistScenarios() {
 	rp := c08Scenario()
 	rp.Name = "replaced-template"
 	histScenarios[rp.Name] = rp
+	fa := c07Scenario()
+	fa.Name = "failed-analysis-then-clone"
+	fa.Init = `{{define "bad"}}<a href="{{end}}{{define "cbad"}}<p>{{template "bad"}}</p>{{end}}{{define "bad2"}}{{if .S}}<a href="{{end}}{{.S}}{{end}}` + fa.Init
+	histScenarios[fa.Name] = fa
 }
 
 // ---- the four checks -------------------------------------------------------------
@@ -711,6 +715,24 @@ func checkC07(r *core.Run) {
 	r.Set("scenario_clone-bodyless", fmt.Sprintf("%d ops, depth<=%d: histories=%d", len(blAlpha), depth+1, st3.states))
 	r.Add("states", st3.states)
 	r.Add("transitions", st3.transitions)
+	// a set frozen by an execution whose analysis failed: Clone of an executed template must fail, Parse must fail
+	fa := c07Scenario()
+	fa.Name = "failed-analysis-then-clone"
+	fa.Init = `{{define "bad"}}<a href="{{end}}{{define "cbad"}}<p>{{template "bad"}}</p>{{end}}{{define "bad2"}}{{if .S}}<a href="{{end}}{{.S}}{{end}}` + fa.Init
+	faAlpha := []hist.Op{
+		{Kind: hist.Exec, H: 0, Form: 2, Name: "bad", Arg: 0}, {Kind: hist.Exec, H: 0, Form: 3, Name: "cbad", Arg: 0}, {Kind: hist.Exec, H: 0, Form: 2, Name: "bad2", Arg: 0}, {Kind: hist.Exec, H: 0, Form: 0, Arg: 0},
+		{Kind: hist.Lookup, H: 0, Name: "bad", Dst: 1}, {Kind: hist.Lookup, H: 0, Name: "a", Dst: 1}, {Kind: hist.Lookup, H: 0, Name: "cbad", Dst: 1}, {Kind: hist.Clone, H: 1, Dst: 2}, {Kind: hist.Clone, H: 0, Dst: 2},
+		{Kind: hist.Parse, H: 2, Arg: 0}, {Kind: hist.Exec, H: 2, Form: 2, Name: "a", Arg: 0}, {Kind: hist.Parse, H: 0, Arg: 0}, {Kind: hist.Exec, H: 1, Form: 0, Arg: 0},
+	}
+	var st4 histStats
+	exploreHist(r, fa, faAlpha, depth, false, &st4, func(f histFinding, ops []hist.Op) {
+		if c07Clauses[f.clause] {
+			r.Witness(f.clause, fa.Name+" "+f.discr, renderOps(ops), f.detail, histReplay{fa.Name, append([]hist.Op{}, ops...)})
+		}
+	})
+	r.Set("scenario_failed-analysis-then-clone", fmt.Sprintf("%d ops, depth<=%d: histories=%d", len(faAlpha), depth, st4.states))
+	r.Add("states", st4.states)
+	r.Add("transitions", st4.transitions)
 	r.Set("scenario_stale-handles", fmt.Sprintf("%d ops, depth<=%d: histories=%d", len(c07StaleAlphabet()), depth+1, st2.states))
 	r.Add("states", st2.states)
 	r.Add("transitions", st2.transitions)
